@@ -164,6 +164,13 @@ func main() {
 			res.Funcs = append(res.Funcs, tfo...)
 		}
 	}
+	if u.Name == "wasm" {
+		tos, tfo := u.jsTableObligations(*repo, fre, kre)
+		allObls = append(allObls, tos...)
+		if len(tos) > 0 {
+			res.Funcs = append(res.Funcs, tfo...)
+		}
+	}
 	// file-level lemmas: closed formulas over the spec library, proved once
 	if u.Name == "lib" {
 		for _, lm := range u.Contracts.Lemmas {
